@@ -58,7 +58,11 @@ fn filter_map(
     let (cel, mut bindings) = helpers::setup_context(ctx);
     let mut filtered_list = Vec::new();
 
-    for key in map.into_keys() {
+    // the keys in one fixed order, whatever order the hash map iterates in
+    let mut keys: Vec<String> = map.into_keys().collect();
+    keys.sort();
+
+    for key in keys {
         let value: CelValue = key.into();
         bindings.bind_param(ident_name, value.clone());
         let interp = Interpreter::new(&cel, &bindings);
